@@ -51,6 +51,49 @@ FIXED = {
 }
 
 
+NEG = {("Normal", "mu"): -0.7, ("Weibull", "gamma"): -0.5, ("LogNormal", "mu"): -0.4, ("VonMises", "mu"): -1.2,
+       ("ScipyGamma", "loc"): -0.4, ("ScipyRayleigh", "loc"): -0.4, ("ScipyBeta", "loc"): -0.3}
+INT = {("ExpWeibull", "delta"): 5, ("ScipyBeta", "scale"): 5}
+
+
+def special_value(fam, n, kind):
+    """the fixed value of a special case (spec/ParamRoutingOps.tla SpecialKinds)"""
+    truth = D.STORED[fam][n]
+    if kind == "zero":
+        return 0.0
+    if kind == "intzero":
+        return 0
+    if kind == "negzero":
+        return -0.0
+    if kind == "neg":
+        return NEG[(fam, n)]
+    if kind == "wrap":
+        return 4.0                       # outside [-pi, pi]
+    if kind == "int":
+        return INT.get((fam, n), max(1, int(round(truth))))
+    if kind == "far":
+        if (fam, n) in NEG:              # location-like: far below the data (von Mises: far around the circle)
+            # von Mises: 1.2 rad off the mean direction (further off, the MLE of kappa is the boundary 0)
+            return round(truth + 1.2, 6) if fam == "VonMises" else round(truth - 2.0, 6)
+        return round(truth * 3.0, 6)
+    raise KeyError(kind)
+
+
+def fixed_for(case):
+    """name -> declared fixed value of a case"""
+    fam = case["fam"]
+    if case.get("special", "regular") != "regular":
+        return {case["sname"]: special_value(fam, case["sname"], case["special"])}
+    return {n: FIXED[fam][n] for n in case["F"]}
+
+
+def start_for(case):
+    st = dict(START[case["fam"]])
+    if case["fam"] == "ScipyBeta" and case.get("special", "regular") != "regular":
+        st["scale"] = 7.0                # support of the start values must contain the data for every fixed loc
+    return st
+
+
 def own_data(fam, n, rng, par=None):
     """sample of the family itself at the true parameters, drawn with scipy/numpy directly"""
     p = par or D.STORED[fam]
@@ -109,7 +152,8 @@ def other_data(fam, n, rng):
 
 
 def reldev(dist, names, target):
-    """max relative deviation of the named parameters from their declared values"""
+    """max relative deviation of the named parameters from their declared values (absolute for a
+    declared value of zero)"""
     worst = 0.0
     par = dist.parameters
     for n in names:
@@ -118,39 +162,45 @@ def reldev(dist, names, target):
             v = float(v)
         except Exception:  # noqa
             return float("inf")
-        d = abs(v - target[n]) / abs(target[n])
+        d = abs(v - target[n]) / (abs(target[n]) if target[n] != 0 else 1.0)
         worst = max(worst, d if d == d else float("inf"))
     return worst
 
 
-def fattr_ok(dist, fam, F):
-    return all((getattr(dist, f"f_{n}") == FIXED[fam][n]) if n in F else (getattr(dist, f"f_{n}") is None)
+def fattr_ok(dist, fam, fx):
+    return all((getattr(dist, f"f_{n}") == fx[n]) if n in fx else (getattr(dist, f"f_{n}") is None)
                for n in D.NAMES[fam])
 
 
 def fit_record(vc, rid, case, seed=0):
     fam, F, fitm, dk = case["fam"], list(case["F"]), case["fitm"], case["data"]
     variant = case.get("variant", 0)
+    special = case.get("special", "regular")
+    fx = fixed_for(case)
+    start = start_for(case)
     names = D.NAMES[fam]
     free = [n for n in names if n not in F]
-    rec = dict(id=rid, kind="fit", fam=fam, F=F, fitm=fitm, data=dk, variant=variant, exc="",
+    rec = dict(id=rid, kind="fit" if special == "regular" else "fitspecial", special=special,
+               sname=case.get("sname", "none"), fam=fam, F=F, fitm=fitm, data=dk, variant=variant, exc="",
                cdev=BIG, fattr=False, evalsame=False, evalkeep=False,
                outcome1="none", fdev1=BIG, free1changed=False, free1finite=False,
                outcome2="none", fdev2=BIG, free2changed=False, free2finite=False)
-    rng = np.random.default_rng([seed, variant, sum(map(ord, fam + fitm + dk + "".join(F)))])
+    rng = np.random.default_rng([seed, variant, sum(map(ord, fam + fitm + dk + special + "".join(F)))])
     n = [400, 250, 900, 400][variant % 4]
     gen = own_data if dk == "own" else other_data
+    if special == "wrap":     # directions centred at the fixed value 4.0 rad (scipy/numpy return them in [-pi, pi])
+        gen = lambda f, m, r: own_data(f, m, r, dict(D.STORED[f], mu=4.0))
     data1, data2 = gen(fam, n, rng), gen(fam, n, rng)
     weights = "quadratic" if fitm == "wlsq" else None
     with warnings.catch_warnings(), np.errstate(all="ignore"):
         warnings.simplefilter("ignore")
         try:
             # NewDist
-            dist = D.build(vc, fam, START[fam], fixed={k: FIXED[fam][k] for k in F})
-            rec["cdev"] = Qc(reldev(dist, F, FIXED[fam]), 1e15, 0, BIG)
-            ok_attr = fattr_ok(dist, fam, F)
+            dist = D.build(vc, fam, start, fixed=fx)
+            rec["cdev"] = Qc(reldev(dist, F, fx), 1e15, 0, BIG)
+            ok_attr = fattr_ok(dist, fam, fx)
             # Eval
-            resolved = {k: (FIXED[fam][k] if k in F else START[fam][k]) for k in names}
+            resolved = {k: (fx[k] if k in F else start[k]) for k in names}
             ref = D.build(vc, fam, resolved)
             before = dict(dist.parameters)
             same = True
@@ -159,7 +209,7 @@ def fit_record(vc, rid, case, seed=0):
                 same = same and D.compare(getattr(dist, meth)(arg), getattr(ref, meth)(arg))[0]
             rec["evalsame"] = bool(same)
             rec["evalkeep"] = dict(dist.parameters) == before
-            ok_attr = ok_attr and fattr_ok(dist, fam, F)
+            ok_attr = ok_attr and fattr_ok(dist, fam, fx)
             # FitDist, twice
             prev = dict(dist.parameters)
             for k, data in ((1, data1), (2, data2)):
@@ -173,21 +223,42 @@ def fit_record(vc, rid, case, seed=0):
                 if not np.array_equal(d0, data):
                     oc = "InputMutated"
                 rec[f"outcome{k}"] = oc
-                rec[f"fdev{k}"] = Qc(reldev(dist, F, FIXED[fam]), 1e15, 0, BIG)
+                rec[f"fdev{k}"] = Qc(reldev(dist, F, fx), 1e15, 0, BIG)
                 cur = dict(dist.parameters)
                 rec[f"free{k}changed"] = all(cur[m] != prev[m] for m in free)
                 rec[f"free{k}finite"] = all(np.ndim(cur[m]) == 0 and np.isfinite(cur[m]) for m in free)
-                ok_attr = ok_attr and fattr_ok(dist, fam, F)
+                ok_attr = ok_attr and fattr_ok(dist, fam, fx)
                 prev = cur
+                rec["mid" if k == 1 else "final"] = {m: repr(float(v)) for m, v in cur.items()}
             rec["fattr"] = bool(ok_attr)
-            rec["final"] = {m: repr(float(v)) for m, v in dist.parameters.items()}
         except Exception as e:  # noqa
             rec["exc"] = f"{type(e).__name__}: {e}"[:200]
     return rec
 
 
 def fit_key(c):
+    if c.get("special", "regular") != "regular":
+        return (f"{c['fam']} fixed={c['sname']}={special_value(c['fam'], c['sname'], c['special'])!r}"
+                f"({c['special']}) method={c['fitm']} data={c['data']}")
     return f"{c['fam']} fixed={'+'.join(c['F']) or '-'} method={c['fitm']} data={c['data']}"
+
+
+def signature(rec):
+    """what must not depend on the other life cycles run in the same process"""
+    return (rec["exc"], rec["outcome1"], rec["outcome2"], str(rec.get("mid")), str(rec.get("final")))
+
+
+def order_pass(args):
+    """all life cycles sequentially in ONE process, in a seeded shuffled order"""
+    global _VC
+    if _VC is None:
+        _VC = import_virocon()
+    cases, seed, which = args
+    order = np.random.default_rng(7000 + 10 * seed + which).permutation(len(cases))
+    out = {}
+    for where, i in enumerate(order):
+        out[int(i)] = (signature(fit_record(_VC, 0, cases[i], seed)), int(where))
+    return out
 
 
 # ---------------------------------------------------------------------------------------
@@ -205,14 +276,19 @@ def condfix_record(vc, rid, case, seed=0):
     rec = dict(id=rid, kind="condfix", fam=fam, F=F, exc="", preok=False, postok=False, fitdev=BIG,
                nint=0, ngiven=0)
     rng = np.random.default_rng([seed, 77, sum(map(ord, fam + "".join(F)))])
-    givens = [0.7, 1.9, 3.2, np.array([0.7, 1.9, 3.2, 1.9]), np.array([2.5])]
+    givens = [0.7, 1.9, 3.2, np.array([0.7, 1.9, 3.2, 1.9]), np.array([2.5]),
+              2, np.int64(3), np.array([1, 2, 3], dtype=np.int64)]     # integer-typed conditioning values too
 
     def fixed_ok(cond):
         ok = True
         for g in givens:
             pv = cond._get_param_values(g) if hasattr(cond, "_get_param_values") else dict(cond.fixed_parameters)
             for n in F:
-                ok = ok and np.ndim(pv[n]) == 0 and pv[n] == FIXED[fam][n] and cond.fixed_parameters[n] == FIXED[fam][n]
+                ok = ok and bool(np.all(np.asarray(pv[n]) == FIXED[fam][n])) and cond.fixed_parameters[n] == FIXED[fam][n]
+            # behaviour: an integer-typed given gives the numbers of the same given as float
+            if np.asarray(g).dtype.kind == "i":
+                xx = np.array(D.X_BODY[:np.size(g)]) if np.ndim(g) else D.X_BODY[1]
+                ok = ok and D.compare(cond.cdf(xx, g), cond.cdf(xx, np.asarray(g, dtype=float) if np.ndim(g) else float(g)))[0]
         return bool(ok)
 
     with warnings.catch_warnings(), np.errstate(all="ignore"):
@@ -277,9 +353,20 @@ def judge(ctx, vc, fcases, ccases, summary=True, reps=1):
     jobs += [("condfix", len(fcases) + i + 1, c, ctx.seed) for i, c in enumerate(ccases)]
     if len(jobs) < 6:
         recs = [_worker_local(vc, j) for j in jobs]
+        passes = [order_pass((fcases, ctx.seed, w)) for w in (1, 2)] if fcases else []
     else:
         with mpc.get_context("fork").Pool(min(ctx.pick(6, 12), os.cpu_count() or 2)) as pool:
+            pa = pool.map_async(order_pass, [(fcases, ctx.seed, 1), (fcases, ctx.seed, 2)], chunksize=1)
             recs = pool.map(_worker, jobs, chunksize=1)
+            passes = pa.get()
+    # CaseOrderIndependent: the life cycle run on its own (pool) and at two positions of two shuffled
+    # sequential runs in one process gives bit for bit the same outcomes and fitted parameters
+    for i, r in enumerate(recs[:len(fcases)]):
+        sig = signature(r)
+        r["ordsame"] = all(p[i][0] == sig for p in passes)
+        r["ordpos"] = [p[i][1] for p in passes]
+        if not r["ordsame"]:
+            r["orddiff"] = str([p[i][0] for p in passes if p[i][0] != sig][0])[:300]
     allrecs = list(recs)
     if summary:
         allrecs.append(dict(id=len(recs) + 1, kind="summary", reps=reps))
@@ -287,12 +374,15 @@ def judge(ctx, vc, fcases, ccases, summary=True, reps=1):
     frecs, crecs = recs[:len(fcases)], recs[len(fcases):]
     for c, r in zip(fcases, frecs):
         ctx.case(f"fit {fit_key(c)} v{c['variant']}", nontrivial=bool(c["F"]) or r["outcome1"] == "ok")
+        c = dict(c)
         for clause in failing.get(r["id"], []):
             ctx.violation(clause, fit_key(c),
                           f"exc={r['exc']!r} cdev={r['cdev']} outcome={r['outcome1']}/{r['outcome2']} "
                           f"{r.get('msg1', '')!r} fdev={r['fdev1']}/{r['fdev2']}e-15 evalsame={r['evalsame']} "
                           f"fattr={r['fattr']} free changed={r['free1changed']}/{r['free2changed']} "
-                          f"finite={r['free1finite']}/{r['free2finite']} final={r.get('final')}", replay=dict(kind="fit", case=c))
+                          f"finite={r['free1finite']}/{r['free2finite']} final={r.get('final')} "
+                          f"ordsame={r.get('ordsame')} at {r.get('ordpos')} other={r.get('orddiff', '')}",
+                          replay=dict(kind="fit", case=c, history=(clause == "CaseOrderIndependent")))
     for c, r in zip(ccases, crecs):
         ctx.case("condfix " + condfix_key(c), nontrivial=r["exc"] == "")
         for clause in failing.get(r["id"], []):
@@ -322,6 +412,7 @@ def selftest(ctx, frec, crec):
             (frec, "FitOutcomeAsSpecified", dict(outcome1="TypeError")),
             (frec, "FixedStable", dict(fdev2=2000)),
             (frec, "FreeEstimated", dict(free1changed=False)),
+            (frec, "CaseOrderIndependent", dict(ordsame=False)),
             (crec, "FixedSameForAllGiven", dict(postok=False)),
             (crec, "FixedStableInIntervals", dict(fitdev=5000))):
         r = copy.deepcopy(base)
@@ -340,7 +431,11 @@ def run(ctx):
     vc = import_virocon()
     ctx.rule = ("TLC enumerates every (family, proper subset F of its parameter names fixed [incl. none], fit method "
                 "mle/lsq/wlsq, data from the own / another family); each is run on the real class as construct(start "
-                "values + f_<n>) -> evaluate -> fit -> re-fit (thorough: 8 variants with other seeds and sample sizes); "
+                "values + f_<n>) -> evaluate -> fit -> re-fit (thorough: 8 variants with other seeds and sample sizes); plus "
+                "every (family, parameter, special fixed value kind: 0.0 / int 0 / -0.0 / negative / outside [-pi,pi] / "
+                "integer-typed / far from the data) with MLE; every life cycle is also run at two positions of two "
+                "seeded shuffled sequential runs in one process and must reproduce outcomes and fitted parameters bit "
+                "for bit; "
                 "plus every (family, non-empty proper F) as a ConditionalDistribution with the other parameters "
                 "dependent, before and after ConditionalDistribution.fit; non-trivial = F non-empty or the fit is "
                 "specified to succeed; distinct = distinct case tuple and variant")
@@ -356,7 +451,13 @@ def run(ctx):
     ctx.model_check("ParamRouting", "MC_ParamRouting_fit_mut_ctor.cfg", expect_violation="FixedHonoured")
     ctx.model_check("ParamRouting", "MC_ParamRouting_fit_mut_fitkw.cfg", expect_violation="FitOutcomeAsSpecified")
     ctx.model_check("ParamRouting", "MC_ParamRouting_fit_mut_overwrite.cfg", expect_violation="FixedStable")
+    ctx.model_check("ParamRouting", "MC_ParamRouting_fit_mut_falsy.cfg", expect_violation="FixedHonoured")
+    ctx.model_check("ParamRouting", "MC_ParamRouting_fit_mut_wrap.cfg", expect_violation="FixedHonoured")
     ctx.model_check("ParamRouting", "MC_ParamRouting_cond_quick.cfg", must_cover=("CondCall",))
+    ctx.model_check("ParamRoutingHist", ctx.pick("MC_ParamRoutingHist_quick.cfg", "MC_ParamRoutingHist_thorough.cfg"),
+                    must_cover=("New", "EvalKw", "Fit"))
+    ctx.model_check("ParamRoutingHist", "MC_ParamRoutingHist_mut_fitkw.cfg",
+                    expect_violation="InstancesShareNoState")
     fcases = ctx.generate("ParamRouting", "Gen_ParamRouting_fit.cfg")
     gen_c = ctx.generate("ParamRouting", "Gen_ParamRouting_cond.cfg")
     ccases = [dict(fam=c["fam"], F=c["F"]) for c in gen_c
@@ -375,6 +476,7 @@ def run(ctx):
     ctx.sample({"case": ccases[len(ccases) // 2], "record": crecs[len(ccases) // 2]})
     ctx.exhaustive = True
     ctx.notes["fit_life_cycles"] = len(fcases)
+    ctx.notes["special_fixed_value_cases"] = sum(1 for c in fcases if c.get("special", "regular") != "regular")
     ctx.notes["fits_specified_ok"] = sum(1 for r in frecs if r["outcome1"] == "ok")
     ctx.notes["fits_specified_not_implemented"] = sum(1 for r in frecs if r["outcome1"] == "NotImplementedError")
     ctx.notes["conditional_fixed_cases"] = len(ccases)
@@ -383,7 +485,11 @@ def run(ctx):
 def replay(ctx, case):
     vc = import_virocon()
     c = case["case"]
-    if c["kind"] == "fit":
+    if c["kind"] == "fit" and c.get("history"):
+        # an order dependence needs the other life cycles: re-run them all (same variant)
+        allc = [dict(x, variant=c["case"].get("variant", 0)) for x in ctx.generate("ParamRouting", "Gen_ParamRouting_fit.cfg")]
+        judge(ctx, vc, allc, [], summary=False)
+    elif c["kind"] == "fit":
         judge(ctx, vc, [c["case"]], [], summary=False)
     else:
         judge(ctx, vc, [], [c["case"]], summary=False)
